@@ -27,7 +27,7 @@ impl Prop for C08 {
     }
     fn phases(&self, tier: Tier) -> Vec<Phase> {
         vec![
-            Phase::new("roundtrip", tier.pick(60000, 2000000)).min_cases(tier.pick(15000, 400000)).timeouts(60, tier.pick(300, 1500)),
+            Phase::new("roundtrip", tier.pick(60000, 4000000)).min_cases(tier.pick(15000, 600000)).timeouts(60, tier.pick(300, 1500)),
             // chains are numbered exhaustively: 6^1 + .. + 6^(L-1) user chains for L operands
             Phase::new("chains", tier.pick(1554, 55986)).min_cases(tier.pick(1500, 50000)).timeouts(60, tier.pick(300, 1500)).exhaustive(true),
             Phase::new("builtin-chains", tier.pick(3000, 300000)).min_cases(tier.pick(700, 60000)).timeouts(60, tier.pick(300, 1500)),
